@@ -48,8 +48,39 @@ def ref_merged(d1, d2):
     return schema.dict(decl)
 
 
+def options_forwarded(ctx):
+    """alias / union / + / make_required mean what their parts mean under every set of validation options too: a custom type
+    whose verdict depends on a keyword option of validate() accepts the same values bare and behind each combinator"""
+    from .. import custom
+    t = custom.OptSchema()("EUR")
+    wrappers = [("alias", lambda x: schema.alias("A", x), lambda v: v), ("alias of alias", lambda x: schema.alias("A", schema.alias("B", x)), lambda v: v),
+                ("union", lambda x: x | schema.none, lambda v: v), ("alias of union", lambda x: schema.alias("U", schema.int | x), lambda v: v),
+                ("any", lambda x: schema.any(schema.int, x), lambda v: v), ("dict +", lambda x: schema.dict({"a": schema.int}) + schema.dict({"c": x}), lambda v: {"a": 1, "c": v}),
+                ("make_required", lambda x: make_required(schema.dict({optional("c"): x})), lambda v: {"c": v}),
+                ("typed list", lambda x: schema.list(x), lambda v: [v, v]), ("element list", lambda x: schema.list([..., schema.alias("A", x)]), lambda v: [0, v])]
+    for name, wrap, mv in wrappers:
+        try:
+            s = wrap(t)
+        except Exception:  # noqa: BLE001
+            continue
+        for opts in ({}, {"ignore_case": True}, {"ignore_case": False}):
+            for v in ("EUR", "eur", "Eur", "usd", 5, None):
+                ctx.count("options_forwarded_cases")
+                try:
+                    bare = not validate(t, v, **opts).has_errors()
+                    got = not validate(s, mv(v), **opts).has_errors()
+                except Exception as e:  # noqa: BLE001
+                    ctx.violation("validate with options raised " + type(e).__name__, combinator=name, options=repr(opts), value=repr(v))
+                    continue
+                want = bare or (name in ("union",) and v is None) or (name in ("alias of union", "any") and isinstance(v, int) and not isinstance(v, bool))
+                if got != want:
+                    ctx.violation("a combinator does not mean what its parts mean under validation options", combinator=name,
+                                  options=repr(opts), value=repr(mv(v)), part_accepts=bare, combined_accepts=got)
+
+
 def run(ctx):
     runner.prove(ctx, MODULE, THEOREMS, FILES)
+    options_forwarded(ctx)
     g = SchemaGen(ctx.rnd, max_depth=2)
     reqs, exp, info = [], [], []
 
